@@ -44,6 +44,8 @@ func init() {
 		oFaults
 		oThreeRevs
 		oStatusSym
+		oStatusConflict
+		oBase8
 	)
 	const (
 		mC03 = 1 << iota
@@ -69,6 +71,8 @@ func init() {
 			step("step", []int{1, 2, 1, oThreeRevs, mC03}, []int{2, 2, 1, oThreeRevs, mC03},
 				[]string{"every delete has a reason", "live up-to-date desired pod never deleted"},
 				[]string{"scale-in delete", "failed pod replaced", "update delete"}),
+			step("step-wide-ordinals", []int{1, 1, 1, oBase8 | oLeanPods, mC03}, []int{2, 1, 1, oBase8 | oLeanPods | oThreeRevs, mC03},
+				[]string{"every delete has a reason"}, []string{"scale-in delete"}),
 		},
 		Stubs: ctlStubs, Assumptions: stepAssume, OutsideClaim: stepOutside,
 	})
@@ -87,6 +91,9 @@ func init() {
 			step("step", []int{2, 2, 1, oPolicyOrdered, mC05}, []int{3, 2, 1, oPolicyOrdered, mC05},
 				[]string{"at most one ordinal is created or deleted per reconcile"},
 				[]string{"ordered create", "ordered scale-in delete", "ordered update delete"}),
+			step("step-wide-ordinals", []int{2, 1, 1, oPolicyOrdered | oBase8 | oLeanPods, mC05}, []int{2, 1, 2, oPolicyOrdered | oBase8, mC05},
+				[]string{"scale-in removes the highest-ordinal pod outside the desired set"},
+				[]string{"ordered scale-in delete"}),
 		},
 		Stubs: ctlStubs, Assumptions: stepAssume, OutsideClaim: stepOutside,
 	})
@@ -106,6 +113,9 @@ func init() {
 			step("step", []int{1, 2, 1, oThreeRevs | oStatusSym, mC12}, []int{2, 2, 1, oThreeRevs | oStatusSym, mC12},
 				[]string{"0 <= currentReplicas <= replicas", "observedGeneration is the generation reconciled"},
 				[]string{"status written", "currentRevision advanced", "quiescent reconcile with a status write"}),
+			step("step-status-conflict", []int{1, 1, 1, oThreeRevs | oStatusSym | oStatusConflict, mC12}, []int{1, 2, 1, oThreeRevs | oStatusSym | oStatusConflict, mC12},
+				[]string{"observedGeneration is the generation reconciled"},
+				[]string{"fault injected at set.updateStatus"}),
 		},
 		Stubs: ctlStubs, Assumptions: stepAssume, OutsideClaim: stepOutside,
 	})
@@ -213,7 +223,7 @@ func init() {
 	register(&spec{
 		ID: "C06", Title: "Stable identity and storage per ordinal; claims come first and are never removed",
 		Runs: []runSpec{
-			{Name: "create", Pkg: pkgCtl, Func: "VH_Pod", Quick: []int{2, 1}, Thorough: []int{3, 2},
+			{Name: "create", Pkg: pkgCtl, Func: "VH_Pod", Quick: []int{2, 1}, Thorough: []int{3, 1},
 				Bounds: func(a []int) string {
 					return fmt.Sprintf("ordinal in [0,4], partition in [0,5], 0..%d claim templates (labels nil/non-nil, clashing template volume or not), each claim absent / on the API server only / in the cache, up to %d failing call(s) among claim lookups, claim creates and the pod create (4 error kinds)", a[0], a[1])
 				},
